@@ -124,6 +124,7 @@ class Interp:
         self.structs = structs or {}
         self.models = []         # (regex, handler)
         self.solver = z3.Solver(); self.solver.set('timeout', solver_timeout)
+        self._asserted = []
         self.nqueries = 0
         self.max_steps = 200000
         self.loop_bound = 8
@@ -134,14 +135,24 @@ class Interp:
 
     # ---- feasibility
     def feasible(self, st, extra=None):
+        """is st.pc (& extra) satisfiable?  The solver keeps the previously asserted prefix (one push level per
+        conjunct) so that a DFS step only asserts what changed."""
         self.nqueries += 1
-        self.solver.push()
-        for c in st.pc: self.solver.add(c)
-        if extra is not None: self.solver.add(extra)
+        asserted = self._asserted
+        pc = st.pc
+        n = 0
+        m = min(len(asserted), len(pc))
+        while n < m and asserted[n] is pc[n]: n += 1
+        if len(asserted) > n:
+            self.solver.pop(len(asserted) - n); del asserted[n:]
+        for c in pc[n:]:
+            self.solver.push(); self.solver.add(c); asserted.append(c)
+        if extra is not None:
+            self.solver.push(); self.solver.add(extra)
         t = time.time()
         r = self.solver.check()
         self.solver_s += time.time() - t
-        self.solver.pop()
+        if extra is not None: self.solver.pop()
         if r == z3.unknown: raise Stuck('feasibility query unknown: ' + self.solver.reason_unknown())
         return r != z3.unsat
 
@@ -272,6 +283,10 @@ class Interp:
             if cf is None: cf = self.consts.get(t)
             if cf is None: raise Stuck('promoted const not found: ' + t + ' in ' + (frame.func.name if frame is not None else '?'))
             return self.eval_const_fn(st, cf, frame)
+        m = re.match(r'^\{(alloc\d+): (.*)\}$', t)
+        if m:
+            a = self.allocs.get(m.group(1))
+            return Obj('alloc', name=m.group(1), static=(a or {}).get('static'), ty=m.group(2), data=(a or {}).get('data'))
         m = re.match(r'^<([\w:]+) as ([\w:]+)>::(\w+)$', t)
         if m:
             ty = m.group(1)
